@@ -4,14 +4,8 @@
 //!   bdverif replay <file>
 //!   bdverif finalize <Cnn> <tier> <evidence.json> <partial.json>...
 
-#![allow(dead_code)]
-mod conv;
-mod engine;
-mod fmt_table;
-mod gen;
-mod props;
-
-use engine::{Ctx, RunMode, Tier};
+use bdverif::engine::{self, Ctx, RunMode, Tier};
+use bdverif::props;
 use std::path::Path;
 
 fn flavour() -> &'static str {
